@@ -454,8 +454,14 @@ def rule_ctor(prog, rep):
                          "documented predicate with exact tuple comparisons (no broadcasting array comparison); "
                          "Coupling / MaskedAutoregressive / BlockAutoregressiveNetwork reject non-scalar or "
                          "conditional transformers", minimum=28)
+    from . import shapegrid
     for q, (argn, src) in FUNC_REFS.items():
         m, fn = prog.func(q)
+        short = q.rsplit(".", 1)[1]
+        if short in shapegrid.WANT and shapegrid.rule(prog, rep, "C13.ctor", short, site_key=f"{q}:value"):
+            # value and raise-set decided together on the grid; keep the instance count of the guard comparison
+            rep.holds("C13.ctor", f"{m.relpath}:{fn.lineno}", f"{q}:raises", "raise-set decided on the same grid", nontrivial=False)
+            continue
         args = [("sym", a) for a in argn]
         gi, wi = Interp(prog), Interp(prog)
         got = gi.eval_function(q, args)
